@@ -112,8 +112,15 @@ def urlish(var: str) -> str:
     return f"ord({var}) < 128 or {var} in {URL_NONASCII!r}"
 
 
-def shard_extras(var: str = "a", coarse: bool = False):
-    return [(name, expr.format(v=var)) for name, expr in (SHARDS_COARSE if coarse else SHARDS)]
+def shard_extras(var: str = "a", coarse: bool = False, exclude: str = ""):
+    """Disjoint preconditions partitioning the domain of a free character; single-character shards that the variable's own
+    `exclude` set rules out are dropped (their precondition would be unsatisfiable)."""
+    out = []
+    for name, expr in (SHARDS_COARSE if coarse else SHARDS):
+        if name.startswith("chr") and chr(int(name[3:])) in exclude:
+            continue
+        out.append((name, expr.format(v=var)))
+    return out
 
 
 # ----------------------------------------------------------------------------- units
